@@ -16,7 +16,7 @@ type scripted struct {
 }
 
 func baseOpts() seqOpts {
-	return seqOpts{bufSize: 256, pause: true, max1: 8, max2: 8, steps: 8}
+	return seqOpts{bufSize: 256, pause: true, max1: 12, max2: 12, steps: 8}
 }
 
 func brokerPublish(qos int, dup bool, id uint16, topic string, msg []byte) []byte {
@@ -73,6 +73,24 @@ var corpus = []scripted{
 			h.adopt()
 			h.connectQuiet()
 			h.drain(3)
+		})
+	}},
+	{"restart with the PUBREL as the newest record, publish, restart again", baseOpts(), func(h *hist) {
+		h.quiet(func() {
+			h.sc.budgetIn = 0
+			h.sc.dropComp = true // PUBREC arrives, PUBCOMP never
+			h.connectQuiet()
+			h.pubP(2, false, []byte("A"), "t")
+			h.pubP(2, false, []byte("B"), "t")
+			h.doRead() // both PUBRECs: PUBRELs recorded, then the connection ends
+			h.adopt()
+			h.pubP(2, false, []byte("C"), "t")
+			h.connectQuiet() // resends the two PUBRELs and C
+			h.doRead()       // PUBREC for C: its PUBREL is recorded
+			h.adopt()
+			h.sc.dropComp = false
+			h.connectQuiet()
+			h.drain(4)
 		})
 	}},
 	{"F3: retransmitted exactly-once PUBLISH after its PUBREC", baseOpts(), func(h *hist) {
@@ -217,6 +235,9 @@ func damageCorpus() []scripted {
 		{"F15: client identifier record damaged", flip(0, 0)},
 		{"F15: client identifier record removed", del(0)},
 		{"two records damaged", func(m map[uint][]byte) { flip(0x8001, 0)(m); flip(0xc002, 5)(m) }},
+		{"two gaps with one good record between (at-least-once)", func(m map[uint][]byte) { del(0x8001)(m); trunc(0x8003, 9)(m) }},
+		{"two gaps with one good record between (exactly-once)", func(m map[uint][]byte) { flip(0xc001, 2)(m); del(0xc003)(m) }},
+		{"three gaps", func(m map[uint][]byte) { del(0x8001)(m); del(0x8003)(m); del(0x8005)(m) }},
 	}
 	var out []scripted
 	for _, d := range ds {
@@ -229,16 +250,16 @@ func damageCorpus() []scripted {
 				h.doRead()
 				h.sc.opts.lossRate = 1000
 				h.doRead() // marker saved, PUBREC written
-				h.pubP(1, false, []byte("A"), "t")
-				h.pubP(1, false, []byte("B"), "t")
-				h.pubP(1, false, []byte("C"), "t")
+				for _, m := range []string{"A", "B", "C", "A2", "B2", "C2"} {
+					h.pubP(1, false, []byte(m), "t")
+				}
 				h.sc.opts.lossRate = 0
 				h.pubP(2, false, []byte("D"), "t")
 				h.sc.opts.lossRate = 1000
 				h.doRead() // PUBREC for D: PUBREL recorded
-				h.pubP(2, false, []byte("E"), "t")
-				h.pubP(2, false, []byte("F"), "t")
-				h.pubP(2, false, []byte("G"), "t")
+				for _, m := range []string{"E", "F", "G", "H2", "I2"} {
+					h.pubP(2, false, []byte(m), "t")
+				}
 				h.rewrite(d.f)
 				h.adopt()
 				h.sc.opts.lossRate = 0
@@ -339,7 +360,12 @@ func init() {
 	runners["C07"] = histRunner("C07", "c07_run", false, 250, 3000, inbound)
 	runners["C13"] = histRunner("C13", "c13_run", false, 250, 3000, hostile)
 	runners["C14"] = histRunner("C14", "c14_run", false, 250, 3000, general)
-	runners["C16"] = histRunner("C16", "c16_run", true, 200, 2000, general)
+	runners["C16"] = histRunner("C16", "c16_run", true, 200, 2000, func(r *rng, i int) seqOpts {
+		o := outbound(r, i)
+		o.adoptRate, o.damageRate, o.storeFaults = pick(r, 6, 10), 70, 0
+		o.max1, o.max2 = 16, 16
+		return o
+	})
 	runners["C17"] = histRunner("C17", "c17_run", false, 250, 3000, limits)
 	runners["C18"] = histRunner("C18", "c18_run", false, 250, 3000, general)
 	_ = fmt.Sprint
